@@ -62,7 +62,10 @@ class Tx:
 
 
 def make_world(rng, seedkey, seeds=None, n=2, client_key=None):
-    W = dm14sim.Dm14World(C.REPO, rng.getrandbits(32), n, maxcmdt=[rng.choice([1, 2, 8, 255]) for _ in range(n)],
+    addrs = rng.sample(range(1, 250), n)
+    if rng.random() < 0.2:
+        addrs[0] = 0          # source address 0 is a legal requester
+    W = dm14sim.Dm14World(C.REPO, rng.getrandbits(32), n, maxcmdt=[rng.choice([1, 2, 8, 255]) for _ in range(n)], addrs=addrs,
                           latency=lambda r, a, b, f: r.choice([1, 300, 1000, 5000]))
     cur = {}
     issued = []
